@@ -676,7 +676,7 @@ def run_driver(run, binp, scns, name, testname="TestScenarios", extra_env=None):
     traces = []
     for p, tr, lf in procs:
         try:
-            rc = p.wait(timeout=int(os.environ.get("VERIF_DRIVER_TIMEOUT", "1500")))
+            rc = p.wait(timeout=int(os.environ.get("VERIF_DRIVER_TIMEOUT", "3600")))   # (patience only: the real-time drivers of the thorough tier take 15-25 min on a loaded machine)
         except subprocess.TimeoutExpired:
             p.kill()
             raise Inconclusive("session driver timeout")
